@@ -139,6 +139,15 @@ impl<C: Config, Q: Query> Snapshot<C, Q> {
 
             let mut new_tfcs = FxHashSet::default();
 
+            // The firewall set of this node is rebuilt from what its callees
+            // reach *now*, so what this node has "seen" of their firewall
+            // sets has to be brought up to date with it. Otherwise a callee
+            // that later goes back to an earlier set (`{F1} -> {F2} -> {F1}`)
+            // looks unchanged against the stale observation, this node keeps
+            // the set `{F2}` and never repairs `F1` again.
+            let mut new_observations =
+                (*self.forward_edge_observation().await.unwrap().0).clone();
+
             for x in forward_edges.iter_all_callees() {
                 let kind = self.engine().get_query_kind(&x).await;
 
@@ -158,6 +167,13 @@ impl<C: Config, Q: Query> Snapshot<C, Q> {
                             .iter()
                             .copied(),
                     );
+
+                    if let Some(observation) = new_observations.get_mut(&x) {
+                        observation
+                            .seen_transitive_firewall_callees_fingerprint =
+                            callee_info
+                                .transitive_firewall_callees_fingerprint();
+                    }
                 }
             }
 
@@ -165,7 +181,10 @@ impl<C: Config, Q: Query> Snapshot<C, Q> {
 
             self.computing_lock_to_clean_query(
                 cleaned_edges,
-                Some(new_tfc),
+                Some((
+                    new_tfc,
+                    ForwardEdgeObservation(Arc::new(new_observations)),
+                )),
                 caller_information,
                 lock_guard,
             )
